@@ -32,6 +32,10 @@ use std::{
 pub type AbraInt = i64;
 pub type AbraFloat = f64;
 
+#[cfg(abra_verif)]
+#[path = "vm_verif.rs"]
+pub mod verif;
+
 const GC_PAUSE_FACTOR: usize = 2;
 const GC_STEP_FACTOR: usize = 2;
 
@@ -168,6 +172,8 @@ impl Runtime {
             sender.clone(),
         ));
         main.is_main = true;
+        #[cfg(abra_verif)]
+        verif::on_runtime_new(main.id);
 
         Runtime {
             run_queue: VecDeque::from([main]),
@@ -216,7 +222,29 @@ impl Runtime {
     }
 
     pub fn run_n_steps(&mut self, steps: u32) -> RuntimeStatus {
+        #[cfg(abra_verif)]
+        verif::ev(verif::T_SCHED, || {
+            format!(
+                r#"{{"e":"run_begin","k":{},"queue":{:?}}}"#,
+                steps,
+                self.run_queue.iter().map(|t| verif::tid_of(t.id)).collect::<Vec<_>>()
+            )
+        });
         let (main_thread_done, steps_consumed) = self.run_threads_round_robin(steps);
+        #[cfg(abra_verif)]
+        verif::ev(verif::T_SCHED, || {
+            let kind = if main_thread_done {
+                "Done"
+            } else {
+                match self.update_status_helper() {
+                    RuntimeStatusKind::Done => "Done",
+                    RuntimeStatusKind::PendingHostFunc => "PendingHostFunc",
+                    RuntimeStatusKind::OutOfSteps => "OutOfSteps",
+                    RuntimeStatusKind::MainThreadError(_) => "MainThreadError",
+                }
+            };
+            format!(r#"{{"e":"run_end","kind":"{}","consumed":{}}}"#, kind, steps_consumed)
+        });
         if main_thread_done {
             return RuntimeStatus {
                 kind: RuntimeStatusKind::Done,
@@ -276,6 +304,10 @@ impl Runtime {
                 skipped_threads = 0;
             } else {
                 skipped_threads += 1;
+                #[cfg(abra_verif)]
+                verif::ev(verif::T_SCHED, || {
+                    format!(r#"{{"e":"skip","tid":{}}}"#, verif::tid_of(thread.id))
+                });
             }
 
             if self.finish_thread_turn(thread) {
@@ -295,6 +327,10 @@ impl Runtime {
             return true;
         }
         if !thread.is_main && thread.done {
+            #[cfg(abra_verif)]
+            verif::ev(verif::T_SCHED, || {
+                format!(r#"{{"e":"thread_dropped","tid":{}}}"#, verif::tid_of(thread.id))
+            });
             return false;
         }
 
@@ -331,6 +367,14 @@ impl Runtime {
 
     fn drain_new_threads(&mut self) -> bool {
         while let Ok(new_thread) = self.new_threads.try_recv() {
+            #[cfg(abra_verif)]
+            verif::ev(verif::T_SCHED, || {
+                format!(
+                    r#"{{"e":"drain","tid":{},"main":{}}}"#,
+                    verif::tid_of(new_thread.id),
+                    new_thread.is_main
+                )
+            });
             if self.finish_thread_turn(new_thread) {
                 return true;
             }
@@ -389,6 +433,10 @@ pub struct VmGreenThread {
     id: u64,
     shared: Arc<VmSharedReadonly>,
     new_threads_sender: Sender<Box<VmGreenThread>>,
+    #[cfg(abra_verif)]
+    verif_gc_calls: u64,
+    #[cfg(abra_verif)]
+    verif_gc_cycles: u64,
 }
 
 impl VmGreenThread {
@@ -421,6 +469,10 @@ impl VmGreenThread {
             id: new_thread_id(),
             shared,
             new_threads_sender,
+            #[cfg(abra_verif)]
+            verif_gc_calls: 0,
+            #[cfg(abra_verif)]
+            verif_gc_cycles: 0,
         }
     }
 
@@ -1018,6 +1070,10 @@ impl Display for ExpectedType {
 
 impl Value {
     fn check_type(&self, _vm: &VmGreenThread, tag: ValueTag) {
+        #[cfg(abra_verif)]
+        if self.1.is_pointer() && verif::is_quarantined(self.0 as usize) {
+            panic!("VERIF-UAF access to reclaimed object as {:?}", tag);
+        }
         if cfg!(debug_assertions) && self.1 != tag {
             _vm.fail(VmErrorKind::WrongType(tag.to_expected_type(), self.1));
         }
@@ -1040,6 +1096,10 @@ impl Value {
 
     unsafe fn get_object_header<'a>(&self) -> &'a mut ObjectHeader {
         debug_assert!(self.1.is_pointer());
+        #[cfg(abra_verif)]
+        if verif::is_quarantined(self.0 as usize) {
+            panic!("VERIF-UAF header access to reclaimed object");
+        }
         unsafe { &mut *(self.0 as *mut ObjectHeader) }
     }
 
@@ -1222,6 +1282,14 @@ struct ObjectHeader {
 
 impl ObjectHeader {
     unsafe fn dealloc(&mut self, heap_size: &mut usize) {
+        #[cfg(abra_verif)]
+        {
+            if verif::quarantine(self as *const Self as usize) {
+                *heap_size -= self.nbytes();
+                return;
+            }
+            verif::on_dealloc(self as *const Self as usize);
+        }
         let kind = self.kind;
         match kind {
             ObjectKind::String => {
@@ -1345,6 +1413,8 @@ impl StructObject {
             }
             vm.heap_size += layout.size();
             vm.gc_debt += layout.size();
+            #[cfg(abra_verif)]
+            verif::on_alloc(vm, obj as usize, "struct", layout.size());
 
             obj
         }
@@ -1413,6 +1483,8 @@ impl ArrayObject {
         }
         vm.heap_size += arr.nbytes();
         vm.gc_debt += arr.nbytes();
+        #[cfg(abra_verif)]
+        verif::on_alloc(vm, arr as *mut ArrayObject as usize, "array", arr.nbytes());
 
         arr
     }
@@ -1461,6 +1533,8 @@ impl ChannelObject {
         }
         vm.heap_size += chan.nbytes();
         vm.gc_debt += chan.nbytes();
+        #[cfg(abra_verif)]
+        verif::on_alloc(vm, chan as *mut ChannelObject as usize, "channel", chan.nbytes());
 
         chan
     }
@@ -1518,6 +1592,8 @@ impl EnumObject {
         }
         vm.heap_size += variant.nbytes();
         vm.gc_debt += variant.nbytes();
+        #[cfg(abra_verif)]
+        verif::on_alloc(vm, variant as *mut EnumObject as usize, "enum", variant.nbytes());
 
         variant
     }
@@ -1554,6 +1630,8 @@ impl StringObject {
         }
         vm.heap_size += str.nbytes();
         vm.gc_debt += str.nbytes();
+        #[cfg(abra_verif)]
+        verif::on_alloc(vm, str as *mut StringObject as usize, "string", str.nbytes());
 
         str
     }
@@ -1592,6 +1670,8 @@ impl VmGreenThread {
         self.validate();
         while steps > 0 {
             self.maybe_gc();
+            #[cfg(abra_verif)]
+            let _verif_guard = verif::StepGuard::new(self);
             if !self.step() {
                 return;
             }
@@ -2224,8 +2304,27 @@ impl VmGreenThread {
                 // TODO: must be made incremental
                 for capture in captures {
                     let copied_val = capture.deep_copy(&mut new_thread);
+                    #[cfg(abra_verif)]
+                    verif::ev(verif::T_CHAN, || {
+                        format!(
+                            r#"{{"e":"capture","parent":{},"child":{},"src":{},"copy":{}}}"#,
+                            verif::tid_of(self.id),
+                            verif::tid_of(new_thread.id),
+                            verif::val_json(&capture),
+                            verif::val_json(&copied_val)
+                        )
+                    });
                     new_thread.push(copied_val);
                 }
+                #[cfg(abra_verif)]
+                verif::ev(verif::T_SCHED | verif::T_CHAN, || {
+                    format!(
+                        r#"{{"e":"spawn","parent":{},"child":{},"ncap":{}}}"#,
+                        verif::tid_of(self.id),
+                        verif::tid_of(new_thread.id),
+                        ncaptures
+                    )
+                });
                 // new_thread.stack_base += ncaptures as usize;
                 self.new_threads_sender.send(new_thread.into()).unwrap();
             }
@@ -2235,10 +2334,31 @@ impl VmGreenThread {
                 let read_val = chan_obj.read_value();
                 match read_val {
                     Some(read_val) => {
+                        #[cfg(abra_verif)]
+                        let verif_src = read_val;
                         let read_val = read_val.deep_copy(self);
+                        #[cfg(abra_verif)]
+                        verif::ev(verif::T_CHAN, || {
+                            format!(
+                                r#"{{"e":"chan_read","tid":{},"ch":{},"got":true,"src":{},"copy":{},"len":{}}}"#,
+                                verif::tid_of(self.id),
+                                verif::chan_id(Arc::as_ptr(&chan_obj.data) as usize),
+                                verif::val_json(&verif_src),
+                                verif::val_json(&read_val),
+                                chan_obj.data.lock().unwrap().len()
+                            )
+                        });
                         self.push(read_val)
                     } // TODO: use registers
                     None => {
+                        #[cfg(abra_verif)]
+                        verif::ev(verif::T_CHAN, || {
+                            format!(
+                                r#"{{"e":"chan_read","tid":{},"ch":{},"got":false,"len":0}}"#,
+                                verif::tid_of(self.id),
+                                verif::chan_id(Arc::as_ptr(&chan_obj.data) as usize)
+                            )
+                        });
                         self.push(chan);
                         self.pc.0 -= 1;
                     }
@@ -2252,6 +2372,16 @@ impl VmGreenThread {
                 // TODO: write_barrier not necessary
                 self.write_barrier(chan.header_ptr(), val);
                 chan.write_value(val);
+                #[cfg(abra_verif)]
+                verif::ev(verif::T_CHAN, || {
+                    format!(
+                        r#"{{"e":"chan_write","tid":{},"ch":{},"val":{},"len":{}}}"#,
+                        verif::tid_of(self.id),
+                        verif::chan_id(Arc::as_ptr(&chan.data) as usize),
+                        verif::val_json(&val),
+                        chan.data.lock().unwrap().len()
+                    )
+                });
             }
             Instr::ConstructStruct(n) => self.construct_struct(n as usize),
             Instr::ConstructArray(n) => self.construct_array(n as usize),
@@ -2479,6 +2609,10 @@ impl VmGreenThread {
     // GARBAGE COLLECTION
 
     pub fn maybe_gc(&mut self) {
+        #[cfg(abra_verif)]
+        if verif::planned_gc(self) {
+            return;
+        }
         match self.gc_state {
             GcState::Idle => {
                 let threshold = self.last_gc_heap_size * GC_PAUSE_FACTOR;
@@ -2508,6 +2642,15 @@ impl VmGreenThread {
         Self::mark(&self.string_operand2, &mut self.gray_stack, self.gc_visited);
 
         self.gc_state = GcState::Marking;
+        #[cfg(abra_verif)]
+        verif::ev(verif::T_GC, || {
+            format!(
+                r#"{{"e":"gc_start","tid":{},"at":{},"snap":{}}}"#,
+                verif::tid_of(self.id),
+                self.verif_gc_calls,
+                verif::snapshot(self)
+            )
+        });
     }
 
     fn mark(v: &Value, gray_stack: &mut Vec<*mut ObjectHeader>, gc_visited: bool) {
@@ -2578,6 +2721,14 @@ impl VmGreenThread {
         }
         if self.gray_stack.is_empty() {
             self.gc_state = GcState::Sweeping { index: 0 };
+            #[cfg(abra_verif)]
+            verif::ev(verif::T_GC, || {
+                format!(
+                    r#"{{"e":"gc_mark_end","tid":{},"snap":{}}}"#,
+                    verif::tid_of(self.id),
+                    verif::snapshot(self)
+                )
+            });
         }
     }
 
@@ -2597,11 +2748,23 @@ impl VmGreenThread {
             if header.visited != self.gc_visited {
                 header.visited = self.gc_visited;
                 self.gray_stack.push(header);
+                #[cfg(abra_verif)]
+                verif::ev(verif::T_GC, || {
+                    format!(
+                        r#"{{"e":"barrier","tid":{},"child":{}}}"#,
+                        verif::tid_of(self.id),
+                        verif::obj_id(child.0 as usize)
+                    )
+                });
             }
         }
     }
 
     fn sweep(&mut self, batch: usize) {
+        #[cfg(abra_verif)]
+        let verif_snap = if verif::on(verif::T_GC) { verif::snapshot(self) } else { String::new() };
+        #[cfg(abra_verif)]
+        let mut verif_freed: Vec<u64> = vec![];
         if let GcState::Sweeping { index } = &mut self.gc_state {
             let mut work_done = 0;
 
@@ -2611,6 +2774,8 @@ impl VmGreenThread {
                 work_done += header.nbytes();
 
                 if header.visited != self.gc_visited {
+                    #[cfg(abra_verif)]
+                    verif_freed.push(verif::obj_id(header_ptr as usize));
                     unsafe { header.dealloc(&mut self.heap_size) };
 
                     self.heap_list.swap_remove(*index);
@@ -2624,7 +2789,22 @@ impl VmGreenThread {
             if *index >= self.heap_list.len() {
                 self.gc_state = GcState::Idle;
                 self.last_gc_heap_size = self.heap_size;
+                #[cfg(abra_verif)]
+                {
+                    self.verif_gc_cycles += 1;
+                }
             }
+            #[cfg(abra_verif)]
+            verif::ev(verif::T_GC, || {
+                format!(
+                    r#"{{"e":"gc_sweep","tid":{},"freed":{:?},"done":{},"heap_size":{},"before":{}}}"#,
+                    verif::tid_of(self.id),
+                    verif_freed,
+                    self.gc_state == GcState::Idle,
+                    self.heap_size,
+                    verif_snap
+                )
+            });
         }
     }
 
